@@ -251,7 +251,19 @@ func cmdVerify(argv []string) {
 					continue
 				}
 				asserts := append([]*Term{}, ex.relevantFacts(o)...)
-				asserts = append(asserts, ex.tagFacts...)
+				// the boxed/pointer-shaped classification of dynamic types only matters to queries
+				// that compare interface values; leaving it out elsewhere keeps a query independent
+				// of which other functions happen to be verified in the same run
+				usesTags := mentionsUF(o.Goal, "boxedtag")
+				for _, a := range asserts {
+					if usesTags {
+						break
+					}
+					usesTags = mentionsUF(a, "boxedtag")
+				}
+				if usesTags {
+					asserts = append(asserts, ex.tagFacts...)
+				}
 				asserts = append(asserts, Not(o.Goal))
 				var gv []*Term
 				if o.Kind != "vacuity" {
@@ -332,6 +344,17 @@ func cmdVerify(argv []string) {
 						r3.Seconds += r.Seconds
 						r = r3
 					}
+				}
+			}
+			if r.Status != "unsat" && r.Status != "sat" && j.o.Kind != "vacuity" {
+				// last resort: other random seeds (accepted only when they refute the negated goal)
+				t := *timeout
+				if t > 5000 {
+					t = 5000
+				}
+				if r4 := SolveSeeded(j.script, *smtdir, fname, t); r4.Status == "unsat" {
+					r4.Seconds += r.Seconds
+					r = r4
 				}
 			}
 			oo := &OblOut{Name: j.o.Name, Kind: j.o.Kind, Func: j.o.Func, Pos: j.o.Pos, Text: j.o.Text, Answer: r.Status, Solver: r.Solver,
@@ -485,6 +508,30 @@ func fatal(res *Output, out string, f string, a ...any) {
 
 
 var quantMemo = map[int]bool{}
+
+var ufMemo = map[string]map[int]bool{}
+
+func mentionsUF(t *Term, name string) bool {
+	m := ufMemo[name]
+	if m == nil {
+		m = map[int]bool{}
+		ufMemo[name] = m
+	}
+	if v, ok := m[t.id]; ok {
+		return v
+	}
+	r := t.Name == name && (t.Op == "uf" || t.Op == "app")
+	if !r {
+		for _, a := range t.Args {
+			if mentionsUF(a, name) {
+				r = true
+				break
+			}
+		}
+	}
+	m[t.id] = r
+	return r
+}
 
 func hasQuantifier(t *Term) bool {
 	if v, ok := quantMemo[t.id]; ok {
